@@ -55,6 +55,7 @@ theorem Obj.evaluate2_snap {o : Obj K} {b1 b2 : Basis K} (hb : o.bases = #[b1, b
       ↔ o.OutOfDomain tol [us, vs] := by
     rw [Obj.outOfDomain2_iff hb, Obj.outOfDomain2_iff hb, exists_mem_map_snap hv1 htol hs1,
       exists_mem_map_snap hv2 htol hs2]
+    simp only [List.map_eq_nil_iff]
   by_cases h1 : tensor = false ∧ ([us, vs].map List.length).eraseDups.length ≠ 1
   · rw [o.evaluate_error_len tol _ tensor h1, o.evaluate_error_len tol _ tensor (by rw [hlen]; exact h1)]
   · by_cases h2 : o.OutOfDomain tol [us, vs]
@@ -74,6 +75,7 @@ theorem Obj.evaluate1_snap {o : Obj K} {b1 : Basis K} (hb : o.bases = #[b1])
   have hlen : ([us.map (snap b1 tol)].map List.length) = [us].map List.length := by simp
   have hdomiff : o.OutOfDomain tol [us.map (snap b1 tol)] ↔ o.OutOfDomain tol [us] := by
     rw [Obj.outOfDomain1_iff hb, Obj.outOfDomain1_iff hb, exists_mem_map_snap hv1 htol hs1]
+    simp only [List.map_eq_nil_iff]
   by_cases h1 : tensor = false ∧ ([us].map List.length).eraseDups.length ≠ 1
   · rw [o.evaluate_error_len tol _ tensor h1,
       o.evaluate_error_len tol _ tensor (by rw [hlen]; exact h1)]
@@ -100,6 +102,7 @@ theorem Obj.evaluate3_snap {o : Obj K} {b1 b2 b3 : Basis K} (hb : o.bases = #[b1
       ↔ o.OutOfDomain tol [us, vs, ws] := by
     rw [Obj.outOfDomain3_iff hb, Obj.outOfDomain3_iff hb, exists_mem_map_snap hv1 htol hs1,
       exists_mem_map_snap hv2 htol hs2, exists_mem_map_snap hv3 htol hs3]
+    simp only [List.map_eq_nil_iff]
   by_cases h1 : tensor = false ∧ ([us, vs, ws].map List.length).eraseDups.length ≠ 1
   · rw [o.evaluate_error_len tol _ tensor h1,
       o.evaluate_error_len tol _ tensor (by rw [hlen]; exact h1)]
